@@ -63,7 +63,7 @@ theorem postAl2_period (u) : PostAl2 (cfgPeriod u) := by
     | none => rw [hq] at h; simp [postPeriod] at h
     | some q =>
       obtain ⟨n2, k2⟩ := q
-      obtain ⟨_, hk, _⟩ := tokenNext_spec hq
+      obtain ⟨_, hk, _⟩ := tokenNext_hit hq
       rw [hq] at h
       simp only [Option.map_some, postPeriod, hk] at h
       split at h <;> cases h
